@@ -394,6 +394,10 @@ struct State {
     /// Transient read errors: when the read cursor stands at `.0`, the next read fails once with
     /// this kind (EINTR, EAGAIN, ETIMEDOUT ...); the connection itself stays usable.
     read_errs: Vec<(u64, io::ErrorKind)>,
+    /// Transient write errors: when the client has written `.0` bytes on this connection, the next
+    /// write fails once with this kind; writes never run across such a position (so a frame that
+    /// straddles it goes out as a short write, then the error).
+    write_errs: Vec<(u64, io::ErrorKind)>,
     dropped: bool,
     log: SharedLog,
     /// Counters of schedule/fault elements that actually fired.
@@ -410,6 +414,7 @@ pub struct Fired {
     pub reset: u64,
     pub write_err: u64,
     pub read_err_once: u64,
+    pub write_err_once: u64,
 }
 
 impl State {
@@ -540,6 +545,7 @@ pub fn sim_conn(
         read_waker: None,
         sleep: None,
         read_errs: Vec::new(),
+        write_errs: Vec::new(),
         dropped: false,
         log,
         fired: Fired::default(),
@@ -572,6 +578,10 @@ impl ConnHandle {
     /// Plans transient read errors (see `State::read_errs`).
     pub fn set_read_errors(&self, v: Vec<(u64, io::ErrorKind)>) {
         self.st.lock().unwrap().read_errs = v;
+    }
+    /// Plans transient write errors (see `State::write_errs`).
+    pub fn set_write_errors(&self, v: Vec<(u64, io::ErrorKind)>) {
+        self.st.lock().unwrap().write_errs = v;
     }
     /// The next read fails once with `kind`, wherever the cursor stands.
     pub fn fail_next_read(&self, kind: io::ErrorKind) {
@@ -731,8 +741,19 @@ impl AsyncWrite for SimConn {
             return Poll::Pending;
         }
         st.last_write_spurious = false;
+        // a transient error planned for this position of the client's output
+        let wl = st.written.len() as u64;
+        if let Some(i) = st.write_errs.iter().position(|(c, _)| *c == wl) {
+            let (_, kind) = st.write_errs.remove(i);
+            st.fired.write_err_once += 1;
+            st.log(Ev::WriteErr);
+            return Poll::Ready(Err(io::Error::new(kind, "sim: transient write error")));
+        }
         let quota = st.next_write_quota();
-        let n = quota.min(buf.len());
+        let mut n = quota.min(buf.len());
+        if let Some(next) = st.write_errs.iter().map(|(c, _)| *c).filter(|c| *c > wl).min() {
+            n = n.min((next - wl) as usize);
+        }
         if n < buf.len() {
             st.fired.short_writes += 1;
         }
